@@ -119,50 +119,72 @@ def dequeueCount (n avail : Nat) : Nat := min avail ((n + 1) / 2)
 
 def fuelPerThread : Nat := 64
 
+/-- fill the completion slots of the threads the delivered completions belong to -/
+def deliverAll (threads : List Thread) : List (SubId × Cpl) → List Thread
+  | [] => threads
+  | dc :: rest => deliverAll (threads.map fun th => if th.tid == dc.1.tid then fillSlot th dc.1.seq dc.2 else th) rest
+
+def newThread (tid : String) (isBg : Option BgKind) (body : Time → Co) : Thread :=
+  { tid := tid, isBg := isBg, restart := body, co := .retry, nextSeq := 0, slots := [] }
+
+/-- background gating: returns the updated registry, the started instances, and the number of
+    scheduler in-queue slots used -/
+def startBg (env : Env) (enabled apiDrained : Bool) (live : List Thread) (t : Time) :
+    List BgState → Nat → List BgState × List Thread × Nat
+  | [], cnt => ([], [], cnt)
+  | b :: rest, cnt =>
+    let runningDone := match b.running with
+      | none => true
+      | some tid => !(live.any fun th => th.tid == tid)
+    if enabled && !apiDrained && (t - b.last) ≥ env.cfg.signalTimeout && runningDone then
+      let tid := bgName b.kind ++ ":" ++ toString t
+      if cnt < env.cfg.coroutineMaxSize then
+        let (bs, ths, c) := startBg env enabled apiDrained live t rest (cnt + 1)
+        ({ b with last := t, running := some tid } :: bs, newThread tid (some b.kind) (b.kind.body env) :: ths, c)
+      else
+        let (bs, ths, c) := startBg env enabled apiDrained live t rest cnt
+        ({ b with last := t, running := none } :: bs, ths, c)
+    else
+      let (bs, ths, c) := startBg env enabled apiDrained live t rest cnt
+      ({ b with running := if runningDone then none else b.running } :: bs, ths, c)
+
+/-- dequeued API submissions become coroutines while the scheduler in-queue has room -/
+def startReqs (env : Env) (t : Time) : List (String × Req) → Nat → List Thread × List Event
+  | [], _ => ([], [])
+  | q :: rest, cnt =>
+    if cnt < env.cfg.coroutineMaxSize then
+      let (ths, evs) := startReqs env t rest (cnt + 1)
+      (newThread q.1 none (q.2.body env t) :: ths, evs)
+    else
+      let (ths, evs) := startReqs env t rest cnt
+      (ths, .respond q.1 (.error S_SCHEDULER_QUEUE_FULL) :: evs)
+
+/-- `RunUntilBlocked`: every runnable thread runs until it blocks or finishes -/
+def runAll (t : Time) : List (Thread × Bool) → List Thread × List Event × List (SubId × Subm) × Option String
+  | [] => ([], [], [], none)
+  | (th, false) :: rest =>
+    let (ths, evs, ds, h) := runAll t rest
+    (th :: ths, evs, ds, h)
+  | (th, true) :: rest =>
+    let (th', ev, d, hh) := th.run t fuelPerThread
+    let (ths, evs, ds, h) := runAll t rest
+    ((match th' with | some x => [x] | none => []) ++ ths, ev ++ evs, d ++ ds, if hh.isSome then hh else h)
+
 /-- `system.Tick(t)` -/
 def Sys.tick (s : Sys) (t : Time) : Sys × List Event :=
   if s.halted.isSome then (s, []) else
   -- 1. deliver completions
-  let deliver := s.cq.take s.env.cfg.completionBatchSize
+  let threads1 := deliverAll s.threads (s.cq.take s.env.cfg.completionBatchSize)
   let cq' := s.cq.drop s.env.cfg.completionBatchSize
-  let threads1 := deliver.foldl (fun ths (dc : SubId × Cpl) =>
-      ths.map fun th => if th.tid == dc.1.tid then fillSlot th dc.1.seq dc.2 else th) s.threads
   -- 2. background coroutines (gated), 3. API submissions: both go through the scheduler's bounded in-queue
-  let apiDrained := s.apiDone && s.apiQ.isEmpty
-  let (bg', newBg, inCount) := s.bg.foldl (fun (acc : List BgState × List Thread × Nat) b =>
-      let (bs, ths, cnt) := acc
-      let runningDone := match b.running with
-        | none => true
-        | some tid => !(threads1.any fun th => th.tid == tid)
-      if s.bgEnabled && !apiDrained && (t - b.last) ≥ s.env.cfg.signalTimeout && runningDone then
-        let tid := bgName b.kind ++ ":" ++ toString t
-        if cnt < s.env.cfg.coroutineMaxSize then
-          let body := b.kind.body s.env
-          (bs ++ [{ b with last := t, running := some tid }],
-           ths ++ [{ tid := tid, isBg := some b.kind, restart := body, co := .retry, nextSeq := 0, slots := [] }], cnt + 1)
-        else (bs ++ [{ b with last := t, running := if runningDone then none else b.running }], ths, cnt)
-      else (bs ++ [{ b with running := if runningDone then none else b.running }], ths, cnt)) ([], [], 0)
+  let (bg', newBg, inCount) := startBg s.env s.bgEnabled (s.apiDone && s.apiQ.isEmpty) threads1 t s.bg 0
   let nDeq := dequeueCount s.env.cfg.submissionBatchSize s.apiQ.length
-  let deq := s.apiQ.take nDeq
-  let apiQ' := s.apiQ.drop nDeq
-  let (newReq, rejected, _) := deq.foldl (fun (acc : List Thread × List Event × Nat) (q : String × Req) =>
-      let (ths, evs, cnt) := acc
-      if cnt < s.env.cfg.coroutineMaxSize then
-        let body := q.2.body s.env t
-        (ths ++ [{ tid := q.1, isBg := none, restart := body, co := .retry, nextSeq := 0, slots := [] }], evs, cnt + 1)
-      else (ths, evs ++ [.respond q.1 (.error S_SCHEDULER_QUEUE_FULL)], cnt)) ([], [], inCount)
+  let (newReq, rejected) := startReqs s.env t (s.apiQ.take nDeq) inCount
   -- 4. run until blocked: resumed threads, then new ones
   let candidates := threads1.map (fun th => match th.resume? t with | some th' => (th', true) | none => (th, false))
       ++ (newBg ++ newReq).map (fun th => (th, true))
-  let (threads2, events, disp, halted) := candidates.foldl
-      (fun (acc : List Thread × List Event × List (SubId × Subm) × Option String) (c : Thread × Bool) =>
-        let (ths, evs, ds, h) := acc
-        if !c.2 then (ths ++ [c.1], evs, ds, h)
-        else
-          let (th', ev, d, hh) := c.1.run t fuelPerThread
-          (match th' with | some x => ths ++ [x] | none => ths, evs ++ ev, ds ++ d, if h.isSome then h else hh))
-      ([], [], [], none)
-  ({ s with threads := threads2, apiQ := apiQ', cq := cq', bg := bg', pending := s.pending ++ disp, halted := halted },
+  let (threads2, events, disp, halted) := runAll t candidates
+  ({ s with threads := threads2, apiQ := s.apiQ.drop nDeq, cq := cq', bg := bg', pending := s.pending ++ disp, halted := halted },
    rejected ++ events)
 
 /-- one store batch (`store.Process` on the listed submissions, with injected failures) -/
